@@ -43,7 +43,7 @@ func divisionRuleNotes(c *core.Check, r *core.Rule, filter func(*ssa.Function) b
 	defer func() {
 		for k := range notes {
 			if !used[k] {
-				r.Unknown("stale note "+k, "-", "the reasoned table names a division that no longer exists")
+				r.Skip("stale note "+k, "-", "the reasoned table names a division that no longer exists (not a violation: the table entry is simply unused)")
 			}
 		}
 	}()
